@@ -85,9 +85,36 @@ VARIANTS = {
     "yesno?": ("yesno", "bool", "True"),  # nargs="?": additionally --g.f=true / --no_g.f=true
 }
 FLAGS = ["yesno", "yesno?"]
+# only in the side space "nested groups / source of the defaults": a field that is itself a group.  The variant names
+# the field list of the sub-group (positional names s0, s1 ... one level down, t0 ... two levels down); in the two
+# signature styles its type is a generated dataclass, in the dotted style its leaves are declared as `--g.f.s0`,
+# in the inner style it is an inner parser of the inner parser.
+SUB_SHAPES = {"sub": ["int", "ostr"], "sub2": ["int", "sub", "ostr"]}
+for _v in SUB_SHAPES:
+    VARIANTS[_v] = ("sub", None, "<group>")
+SUBS = list(SUB_SHAPES)
 NO_DEFAULT = [v for v, (_, _, d) in VARIANTS.items() if d is None]
-WITH_DEFAULT = [v for v, (_, _, d) in VARIANTS.items() if d is not None and v not in FLAGS]
+WITH_DEFAULT = [v for v, (_, _, d) in VARIANTS.items() if d is not None and v not in FLAGS and v not in SUBS]
 NULLABLE = {"ostr!", "ostr", "intN"}
+# the *other* default a signature carries when the intended default is given somewhere else (DFLT_MODES below)
+ALT_DEFAULT = {
+    "int": "70",
+    "ostr": "'e'",
+    "list": "[8]",
+    "bool": "True",
+    "enum": "E.B",
+    "dict": "{'j': 2}",
+    "float": "1.25",
+}
+# where the intended defaults of the group are given:
+#   sig   in the signature / in every add_argument (the main space)
+#   decl  at the declaration, overriding a signature that carries ALT_DEFAULT:
+#         add_argument("--g", type=GD, default=GD(...)); add_class_arguments(G, "g", default={...})
+#   post  after the declaration, every style having declared ALT_DEFAULT: parser.set_defaults({"g": {...}}) where
+#         the key g is declared, parser.set_defaults({"g.f0": ..., "g.f1.s0": ...}) in the dotted style
+#   fact  (lists with a sub-group) the sub-group's own class carries ALT_DEFAULT, the enclosing signature's default
+#         (default_factory / default instance) carries the intended values
+DFLT_MODES = ["sig", "decl", "post", "fact"]
 
 VALUES = {
     "int": {"argv": "3", "json": 4, "env": "5", "bad_argv": "x", "bad_json": "x"},
@@ -104,9 +131,58 @@ DICT_ITEM = ("q", 8)  # `--g.f.q=8`
 TWO_SOURCES = {"CP": "C P", "CK": "C K", "CA": "C A", "EA": "E A", "AP": "A P", "EP": "E P", "AK": "A K", "EK": "E K"}
 
 
-def field_specs(vids):
-    """[(name, variant id, base, annotation source, default source)] - names are positional."""
-    return [(f"f{i}", v) + VARIANTS[v] for i, v in enumerate(vids)]
+def field_specs(vids, depth=0):
+    """[(name, variant id, base, annotation source, default source)] - names are positional (f0.. in the group,
+    s0.. in a sub-group, t0.. in a sub-group of a sub-group)."""
+    return [(f"{'fst'[depth]}{i}", v) + VARIANTS[v] for i, v in enumerate(vids)]
+
+
+def sub_specs(vid, depth):
+    """The field list of a sub-group variant that sits at nesting depth `depth`."""
+    return field_specs(SUB_SHAPES[vid], depth + 1)
+
+
+def leaf_paths(fields, depth=0, prefix=""):
+    """[(dotted path below the group key, variant id, base)] of every leaf, in declaration order."""
+    out = []
+    for n, vid, base, _, _ in fields:
+        if base == "sub":
+            out += leaf_paths(sub_specs(vid, depth), depth + 1, f"{prefix}{n}.")
+        else:
+            out.append((prefix + n, vid, base))
+    return out
+
+
+def group_paths(fields, depth=0, prefix=""):
+    """Dotted paths (below the group key) of the sub-groups."""
+    out = []
+    for n, vid, base, _, _ in fields:
+        if base == "sub":
+            out.append(prefix + n)
+            out += group_paths(sub_specs(vid, depth), depth + 1, f"{prefix}{n}.")
+    return out
+
+
+def json_value(vid, depth=0):
+    """The config-channel value of a field (nested for a sub-group: every leaf)."""
+    if VARIANTS[vid][0] == "sub":
+        return {n: json_value(v, depth + 1) for n, v, *_ in sub_specs(vid, depth)}
+    return VALUES[VARIANTS[vid][0]]["json"]
+
+
+def intended_defaults(fields, depth=0):
+    """The intended defaults of a list of with-default fields as a nested dict of real values."""
+    ns = _gen_namespace()
+    return {
+        n: intended_defaults(sub_specs(vid, depth), depth + 1) if base == "sub" else eval(dflt, ns)
+        for n, vid, base, _, dflt in fields
+    }
+
+
+def flat_defaults(fields, key):
+    """The intended defaults leaf by leaf: {"g.f0": ..., "g.f1.s0": ...}."""
+    ns = _gen_namespace()
+    return {f"{key}.{path}": eval(VARIANTS[vid][2], ns) for path, vid, _ in leaf_paths(fields)}
 
 
 # ---------------------------------------------------------------------------------------------------
@@ -124,36 +200,88 @@ def _gen_namespace():
     }
 
 
-def make_class(fields):
-    """A real class whose __init__ carries the annotations and defaults."""
-    params = ", ".join(f"{n}: {ann}" + (f" = {dflt}" if dflt is not None else "") for n, _, _, ann, dflt in fields)
+def _sig_default(vid, dflt, alt):
+    """The default text a signature / add_argument carries: the intended one, or the other one."""
+    return ALT_DEFAULT[vid] if alt else dflt
+
+
+def _instance_src(name, fields, depth=0):
+    """Source of an instance of the generated dataclass `name` that carries the intended defaults."""
+    args = []
+    for n, vid, base, _, dflt in fields:
+        if base == "sub":
+            args.append(f"{n}={_instance_src(f'{name}_{n}', sub_specs(vid, depth), depth + 1)}")
+        else:
+            args.append(f"{n}={dflt}")
+    return f"{name}({', '.join(args)})"
+
+
+def _gen_dataclass(name, fields, lines, alt, sub_alt, fact, depth=0):
+    """Append the source of the dataclass `name` to `lines`, the classes of its sub-groups first.
+
+    alt: this class carries ALT_DEFAULT; sub_alt: the classes of the sub-groups do; fact: the defaults of the
+    sub-group fields are instances carrying the intended values (otherwise the sub-group class itself)."""
+    body = []
+    for n, vid, base, ann, dflt in fields:
+        if base == "sub":
+            sub = f"{name}_{n}"
+            inner = sub_specs(vid, depth)
+            _gen_dataclass(sub, inner, lines, sub_alt, sub_alt, False, depth + 1)
+            factory = f"lambda: {_instance_src(sub, inner, depth + 1)}" if fact else sub
+            body.append(f"    {n}: {sub} = dataclasses.field(default_factory={factory})\n")
+        elif dflt is None:
+            body.append(f"    {n}: {ann}\n")
+        elif base in ("list", "dict"):
+            body.append(f"    {n}: {ann} = dataclasses.field(default_factory=lambda: {_sig_default(vid, dflt, alt)})\n")
+        else:
+            body.append(f"    {n}: {ann} = {_sig_default(vid, dflt, alt)}\n")
+    lines.append(f"@dataclasses.dataclass\nclass {name}:\n" + "".join(body) + "\n")
+
+
+def make_class(fields, dflt_mode="sig"):
+    """A real class whose __init__ carries the annotations and defaults (sub-groups: generated dataclasses)."""
+    alt, sub_alt, fact = dflt_mode in ("decl", "post"), dflt_mode != "sig", dflt_mode == "fact"
+    lines, params = [], []
+    for n, vid, base, ann, dflt in fields:
+        if base == "sub":
+            sub = f"G_{n}"
+            inner = sub_specs(vid, 0)
+            _gen_dataclass(sub, inner, lines, sub_alt, sub_alt, False, 1)
+            params.append(f"{n}: {sub} = " + (_instance_src(sub, inner, 1) if fact else f"{sub}()"))
+        else:
+            params.append(f"{n}: {ann}" + (f" = {_sig_default(vid, dflt, alt)}" if dflt is not None else ""))
     body = "".join(f"        self.{n} = {n}\n" for n, *_ in fields)
-    src = f"class G:\n    def __init__(self, {params}):\n{body}"
+    src = "".join(lines) + f"class G:\n    def __init__(self, {', '.join(params)}):\n{body}"
     ns = _gen_namespace()
     exec(compile(src, "<c07 generated class>", "exec"), ns)
     return ns["G"]
 
 
-def make_dataclass(fields):
+def make_dataclass(fields, dflt_mode="sig", with_instance=False):
+    alt, sub_alt, fact = dflt_mode in ("decl", "post"), dflt_mode != "sig", dflt_mode == "fact"
     lines = []
-    for n, _, base, ann, dflt in fields:
-        if dflt is None:
-            lines.append(f"    {n}: {ann}\n")
-        elif base in ("list", "dict"):
-            lines.append(f"    {n}: {ann} = dataclasses.field(default_factory=lambda: {dflt})\n")
-        else:
-            lines.append(f"    {n}: {ann} = {dflt}\n")
-    src = "@dataclasses.dataclass\nclass GD:\n" + "".join(lines)
+    _gen_dataclass("GD", fields, lines, alt, sub_alt, fact)
     ns = _gen_namespace()
-    exec(compile(src, "<c07 generated dataclass>", "exec"), ns)
+    exec(compile("".join(lines), "<c07 generated dataclass>", "exec"), ns)
+    if with_instance:  # an instance that carries the intended defaults
+        return ns["GD"], eval(_instance_src("GD", fields), ns)
     return ns["GD"]
 
 
-def _add_plain(parser, prefix, fields, J):
-    """The argument-by-argument declaration (dotted style with prefix 'g.', inner parser with prefix '')."""
+def _add_plain(parser, prefix, fields, J, alt=False, inner_parsers=False, depth=0):
+    """The argument-by-argument declaration (dotted style with prefix 'g.', inner parser with prefix '').
+    A sub-group is declared leaf by leaf under a longer prefix, or (inner style) as an inner parser of its own."""
     ns = _gen_namespace()
     for n, vid, base, ann, dflt in fields:
         opt = f"--{prefix}{n}"
+        if base == "sub":
+            if inner_parsers:
+                sub = J.ArgumentParser(exit_on_error=False)
+                _add_plain(sub, "", sub_specs(vid, depth), J, alt, True, depth + 1)
+                parser.add_argument(opt, action=J.ActionParser(parser=sub))
+            else:
+                _add_plain(parser, f"{prefix}{n}.", sub_specs(vid, depth), J, alt, False, depth + 1)
+            continue
         if base == "yesno":
             kw = {"nargs": "?"} if vid == "yesno?" else {}
             parser.add_argument(opt, action=J.ActionYesNo, default=eval(dflt, ns), **kw)
@@ -165,27 +293,37 @@ def _add_plain(parser, prefix, fields, J):
             else:
                 parser.add_argument(opt, type=typ, required=True)
         else:
-            value = eval(dflt, ns)
+            value = eval(_sig_default(vid, dflt, alt), ns)
             if value is None and not ann.startswith("Optional["):
                 typ = Optional[typ]
             parser.add_argument(opt, type=typ, default=value)
 
 
-def build_parser(style, fields, key, J, link=False):
+def build_parser(style, fields, key, J, link=False, dflt_mode="sig"):
     parser = J.ArgumentParser(prog="app", exit_on_error=False, default_env=True, env_prefix="APP")
     parser.add_argument("--cfg", action=J.ActionConfigFile)
+    post = dflt_mode == "post"
     if style == "dotted":
-        _add_plain(parser, key + ".", fields, J)
+        _add_plain(parser, key + ".", fields, J, alt=post)
     elif style == "dataclass":
-        parser.add_argument("--" + key, type=make_dataclass(fields))
+        if dflt_mode == "decl":
+            cls, instance = make_dataclass(fields, dflt_mode, with_instance=True)
+            parser.add_argument("--" + key, type=cls, default=instance)
+        else:
+            parser.add_argument("--" + key, type=make_dataclass(fields, dflt_mode))
     elif style == "class":
-        parser.add_class_arguments(make_class(fields), key)
+        kw = {"default": intended_defaults(fields)} if dflt_mode == "decl" else {}
+        parser.add_class_arguments(make_class(fields, dflt_mode), key, **kw)
     elif style == "inner":
         inner = J.ArgumentParser(exit_on_error=False)
-        _add_plain(inner, "", fields, J)
+        _add_plain(inner, "", fields, J, alt=post, inner_parsers=True)
         parser.add_argument("--" + key, action=J.ActionParser(parser=inner))
     else:
         raise AssertionError(style)
+    if post:
+        # the same defaults, given after the declaration: as one nested value under the group key where the style
+        # declares that key, leaf by leaf in the dotted style (which has no key `g`)
+        parser.set_defaults(flat_defaults(fields, key) if style == "dotted" else _nest(key, intended_defaults(fields)))
     if link:
         # a top-level option of the last field's type, linked into the group
         n, _, base, ann, _ = fields[-1]
@@ -217,6 +355,18 @@ def field_options(vid, method, level, group="g0", role=None):
         return ["U"] if VARIANTS[vid][2] is not None or vid == "ostr!" else ["A"]
     if role == "target":
         return ["U", "S", "A", "C"] + (["P"] if lst else []) + (["K"] if dct else []) + (["N"] if vid in NULLABLE else [])
+    if base == "sub":
+        # inputs of a sub-group field: A / E / X / O address its first leaf, C / XC its last leaf, J gives the
+        # whole sub-group as JSON on its own option `--g.f` (declared by every style except the dotted one)
+        if method == "args":
+            if group in ARGS_GROUP_AFTER:
+                return ["U", "A"]
+            if group in ARGS_GROUP_CFG:
+                return ["U", "C"]
+            return ["U", "A", "C", "J"] + (["E", "X"] if level != "triple" else []) + (["XC"] if level == "single" else [])
+        if method in ("object", "string"):
+            return ["U", "O"] if group != "g0" or level == "triple" else ["U", "O", "X"]
+        return ["U", "E"]
     if base == "yesno":
         if method == "args":
             if group in ARGS_GROUP_AFTER:
@@ -282,7 +432,7 @@ def group_options(method, n_fields, level):
 
 def applicable_styles(case):
     styles = FLAG_STYLES if any(v in FLAGS for v in case["fields"]) else STYLES
-    if case.get("group") in ("gJ", "gJ1", "gE", "gUj"):
+    if case.get("group") in ("gJ", "gJ1", "gE", "gUj") or "J" in case["opts"]:
         styles = [s for s in styles if s in WITH_GROUP_OPTION]
     return styles
 
@@ -295,8 +445,29 @@ def render(case):
     method = case["method"]
     envkey = "APP_" + key.replace(".", "__").upper()
     argv, env, cfgd, obj = [], {}, {}, {}
-    all_json = {n: VALUES[base]["json"] for n, _, base, _, _ in fields}
+    all_json = {n: json_value(vid) for n, vid, _, _, _ in fields}
     for (n, vid, base, _, _), opt in zip(fields, case["opts"]):
+        if base == "sub":
+            # the addressed leaf: the first one (argv, environment, object), the last one (config string)
+            leaves = leaf_paths(sub_specs(vid, 0), 1)
+            (p1, _, b1), (p2, _, b2) = leaves[0], leaves[-1]
+            if opt == "J":
+                argv.append(f"--{key}.{n}=" + json.dumps(json_value(vid)))
+            elif opt == "A":
+                argv.append(f"--{key}.{n}.{p1}={VALUES[b1]['argv']}")
+            elif opt == "X" and method == "args":
+                argv.append(f"--{key}.{n}.{p1}={VALUES[b1]['bad_argv']}")
+            elif opt == "E":
+                env[f"{envkey}__{n.upper()}__{p1.replace('.', '__').upper()}"] = VALUES[b1]["env"]
+            elif opt == "C":
+                cfgd[n] = _nest(p2, VALUES[b2]["json"])
+            elif opt == "XC":
+                cfgd[n] = _nest(p2, VALUES[b2]["bad_json"])
+            elif opt == "O":
+                obj[n] = _nest(p1, VALUES[b1]["json"])
+            elif opt == "X":
+                obj[n] = _nest(p1, VALUES[b1]["bad_json"])
+            continue
         v = VALUES[base]
         o = f"--{key}.{n}"
         no = f"--no_{key}.{n}"
